@@ -71,5 +71,93 @@ def run_for(ctx, pid, num_quick=160, num_thorough=4000, check_bytes=True):
                            "recording": d.rec})
 
 
+def trace_leg(ctx, pid, with_repo_tests=True):
+    """Leg T: real record() executions at realistic sizes (1024 branches, 8 taps), and the repository's own voltage
+    tests, recorded by harness/record.py and validated against BackendTrace.tla."""
+    import subprocess
+    import sys
+    import numpy as np
+    from .. import trace
+    from ..record import Recorder
+    from setigen.voltage import antenna as v_antenna, backend as v_backend, polyphase_filterbank as v_pfb, quantization as v_q
+    rng = np.random.default_rng(ctx.seed + 202)
+    work = os.path.join(ctx.outdir, "rawT")
+    os.makedirs(work, exist_ok=True)
+    rec = Recorder().install()
+    cases = []
+    try:
+        for k in range(ctx.pick(10, 60)):
+            B, taps = (1024, 8) if k % 2 == 0 else (int(rng.choice([16, 64, 256])), int(rng.choice([2, 4, 8])))
+            U = int(rng.integers(1, 9))
+            S = int(rng.integers(1, 12))
+            pols, bits = int(rng.choice([1, 2])), int(rng.choice([4, 8]))
+            nant = int(rng.choice([1, 1, 2]))
+            nch = int(rng.integers(1, min(B // 2, 8) + 1))
+            blocks, bpf = int(rng.integers(1, 4)), int(rng.integers(1, 3))
+            kw = dict(sample_rate=3e9, fch1=6e9, ascending=bool(k % 2), num_pols=pols, seed=int(rng.integers(1 << 30)))
+            if nant == 1:
+                src = v_antenna.Antenna(**kw)
+                streams = src.streams
+            else:
+                src = v_antenna.MultiAntennaArray(num_antennas=nant, delays=[0, 3][:nant], **kw)
+                streams = [s for a in src.antennas for s in a.streams]
+            for s_ in streams:
+                s_.add_noise(0, 1)
+            T = taps * U
+            bps = 2 * pols * bits // 8
+            be = v_backend.RawVoltageBackend(src, digitizer=v_q.RealQuantizer(target_fwhm=32, num_bits=8),
+                                             filterbank=v_pfb.PolyphaseFilterbank(num_taps=taps, num_branches=B),
+                                             requantizer=v_q.ComplexQuantizer(target_fwhm=32 if bits == 8 else 5, num_bits=bits),
+                                             start_chan=0, num_chans=nch, block_size=nant * nch * T * bps, blocks_per_file=bpf, num_subblocks=S)
+            be.record(os.path.join(work, "t%d" % k), num_blocks=blocks, length_mode="num_blocks", header_dict={}, load_template=False, verbose=False)
+            if k % 3 == 0:      # a second recording on the same backend (num_subblocks already updated, antenna clock moved on)
+                be.record(os.path.join(work, "u%d" % k), num_blocks=1, length_mode="num_blocks", header_dict={}, load_template=False, verbose=False)
+            cases.append({"B": B, "taps": taps, "U": U, "S": S, "pols": pols, "bits": bits, "nant": nant, "blocks": blocks, "bpf": bpf})
+            for fn in os.listdir(work):
+                os.remove(os.path.join(work, fn))
+    finally:
+        rec.uninstall()
+    traces = list(rec.traces)
+    origin = ["driver"] * len(traces)
+    if with_repo_tests:
+        out = os.path.join(ctx.outdir, "repo_traces.json")
+        env = dict(os.environ)
+        repo = os.environ.get("VERIF_REPO", "/repo")
+        env.update({"PYTHONPATH": os.path.join(core_dir(), "harness") + os.pathsep + repo, "VERIF_TRACE_OUT": out, "TQDM_DISABLE": "1"})
+        p = subprocess.run([sys.executable, "-m", "pytest", "-q", "-p", "no:cacheprovider", "-p", "verif_recorder", "-x",
+                            "tests/test_voltage/test_raw_voltages.py"], cwd=repo, env=env, stdout=subprocess.PIPE,
+                           stderr=subprocess.STDOUT, universal_newlines=True, timeout=900)
+        if os.path.exists(out):
+            import json
+            rt = json.load(open(out))
+            traces += rt
+            origin += ["repo-test"] * len(rt)
+            ctx.notes["repo_test_traces"] = len(rt)
+        if p.returncode != 0 or not os.path.exists(out):
+            raise RuntimeError("recording the repository's voltage tests failed:\n" + p.stdout[-1500:])
+    if not traces:
+        raise RuntimeError("no record() traces were captured")
+    ok, rejects, res = trace.validate("BackendTrace", "BackendTrace.cfg", traces, ctx.outdir)
+    ctx.add_tlc(res, "BackendTrace (%d record() executions)" % len(traces), "T-validate")
+    ctx.traces += len(traces)
+    ctx.steps += sum(len(t) for t in traces)
+    ctx.sample({"leg": "T", "origin": origin[0], "trace_head": traces[0][:5]})
+    for t in traces:
+        c = t[0]
+        ctx.mark(("trace", c["taps"], c["B"], c["T"], c["S"], c["bpf"], c["pols"], c["nant"], c["blocks"], len(t)))
+    for rj in rejects:
+        t = traces[rj["reject"] - 1]
+        ev = t[rj["at"] - 1] if rj["at"] - 1 < len(t) else {"e": "missing"}
+        args = dict(t[0])
+        args.update({"action": "RecordTrace", "origin": origin[rj["reject"] - 1], "event": ev.get("e")})
+        ctx.violation(MODULE, "trace-reject:" + str(ev.get("e")), args, {"begin": t[0], "position": rj["at"], "rejected_event": ev,
+                                                                        "previous_events": t[max(0, rj["at"] - 5):rj["at"] - 1]})
+
+
+def core_dir():
+    return os.path.dirname(os.path.dirname(os.path.dirname(os.path.abspath(__file__))))
+
+
 def run(ctx):
     run_for(ctx, "C02")
+    trace_leg(ctx, "C02")
